@@ -98,7 +98,7 @@ static void run_C12(void)
 
 /* ---------------------------------------------------------------------------------------------- C09 */
 static uint8_t M[256 * 256], Msave[256 * 256], Minv[256 * 256], Mprod[256 * 256];
-static long n_inv, n_sing, n_patterns, n_minors, n_pipeline;
+static long n_inv, n_sing, n_patterns, n_minors, n_pipeline, n_full;
 
 static int lib_invert_checked(int n, const char *what)
 {
@@ -167,6 +167,13 @@ static void pipeline(long idx, int cauchy, int m, int k, const uint8_t *alive /*
 	if (V_TRY(30)) { ec_init_tables(k, nl, dcoef, gtbl); ec_encode_data(len, k, nl, gtbl, recp, outp); V_END; } else { v_describe_fault(); v_viol("fault:ec_encode_data:recovery", "%s", v_fault_txt); return; }
 	n_pipeline++; evals++;
 	for (int e = 0; e < nl; e++) if (memcmp(rec[e], blk[lost[e]], len)) { snprintf(key, sizeof key, "recovery-mismatch:%s", cauchy ? "cauchy" : "rs"); v_viol(key, "m=%d k=%d erased block %d not reproduced", m, k, lost[e]); return; }
+	/* decode with the whole inverse into the same (now used) table buffer: all k data blocks come back, the rows of surviving data blocks are unit vectors (zero coefficients) */
+	if (k <= 32 && (idx & 1)) {
+		for (int e = 0; e < k; e++) { outp[e] = rec[e]; memset(rec[e], 0x55, len + 8); }
+		if (V_TRY(30)) { ec_init_tables(k, k, Minv, gtbl); ec_encode_data(len, k, k, gtbl, recp, outp); V_END; } else { v_describe_fault(); v_viol("fault:ec_encode_data:recovery", "%s", v_fault_txt); return; }
+		n_pipeline++; n_full++;
+		for (int e = 0; e < k; e++) if (memcmp(rec[e], blk[e], len)) { snprintf(key, sizeof key, "recovery-mismatch:%s:full-inverse", cauchy ? "cauchy" : "rs"); v_viol(key, "m=%d k=%d: data block %d not reproduced when all k blocks are rebuilt with the full inverse (table buffer reused)", m, k, e); return; }
+	}
 	v_distinct(v_hash64(alive, m, (uint64_t) m * 65536 + k * 256 + cauchy));
 }
 static void make_blocks(vrng *r, int m, int k, int len)
@@ -252,14 +259,14 @@ static void run_C09(void)
 	/* the recovery pipeline through whichever encode implementation each CPU level's resolver selects */
 	if (V_NDISPATCHED > 0) for (int l = 0; l < CPUSIM_NNAMED; l++) {
 		const cpucfg *c = &cpusim_named[l]; if (!cpusim_host_can(c)) continue; cpusim_apply(c); v_set("cpu_levels", c->name);
-		long nl2 = (long) ((vopt.thorough ? 1500 : 90) * vopt.scale);
+		long nl2 = (long) ((vopt.thorough ? 6000 : 600) * vopt.scale);
 		for (long q = 0; q < nl2; q++) { long idx = 5000000 + l * 100000l + q; if (!v_mine(idx)) continue; vrng r; vr_seed(&r, vopt.seed, 45, idx);
 			int cauchy = vrn(&r, 4) != 0, m, k; if (cauchy) { int p = 1 + vrn(&r, 14); k = 1 + vrn(&r, 20); m = k + p; } else { static const int mk[][2] = { {9, 3}, {12, 2}, {25, 4}, {10, 5}, {25, 21}, {16, 13}, {24, 20}, {8, 1} }; int w = vrn(&r, 8); m = mk[w][0]; k = mk[w][1]; }
-			int len = vrn(&r, 4) ? vrr(&r, 1, 140) : vrr(&r, 0, 300); gen_matrix(cauchy, enc, m, k); make_blocks(&r, m, k, len);
+			int len = vrn(&r, 3) == 0 ? (int[]){ 16, 32, 48, 64, 96, 128, 192, 256 }[vrn(&r, 8)] : vrn(&r, 4) ? vrr(&r, 1, 140) : vrr(&r, 0, 300); gen_matrix(cauchy, enc, m, k); make_blocks(&r, m, k, len);
 			uint8_t alive[256]; memset(alive, 1, m); for (int e = 0; e < m - k; e++) { int x; do x = vrn(&r, m); while (!alive[x]); alive[x] = 0; }
 			pipeline(idx, cauchy, m, k, alive, len, c->name); }
 	}
-	v_stat("inversions", n_inv); v_stat("singular_inputs", n_sing); v_stat("survivor_patterns", n_patterns); v_stat("minors", n_minors); v_stat("recoveries_via_ec_encode_data", n_pipeline);
+	v_stat("inversions", n_inv); v_stat("singular_inputs", n_sing); v_stat("survivor_patterns", n_patterns); v_stat("minors", n_minors); v_stat("recoveries_via_ec_encode_data", n_pipeline); v_stat("full_inverse_decodes_with_reused_tables", n_full);
 }
 
 int main(int argc, char **argv)
